@@ -164,15 +164,33 @@ func opParseTrace(req request) response {
 	case "eval":
 		var v *lr.Value
 		next := 0
-		v, err = p.ParseAndEvaluate(func(i int, rhs []*lr.Value) (any, error) {
+		// kept: the slices as handed over, rendered a second time after the parse (args_after)
+		kept := [][]*lr.Value{}
+		renderArgs := func(rhs []*lr.Value) []any {
 			args := []any{}
 			for _, r := range rhs {
+				if r == nil {
+					args = append(args, nil)
+					continue
+				}
 				var pos any
 				if r.Pos != nil {
 					pos = []int{r.Pos.Offset, r.Pos.Line, r.Pos.Column}
 				}
 				args = append(args, []any{r.Val, pos})
 			}
+			return args
+		}
+		defer func() {
+			after := []any{}
+			for _, rhs := range kept {
+				after = append(after, renderArgs(rhs))
+			}
+			res["args_after"] = after
+		}()
+		v, err = p.ParseAndEvaluate(func(i int, rhs []*lr.Value) (any, error) {
+			args := renderArgs(rhs)
+			kept = append(kept, rhs)
 			id := fmt.Sprintf("#%d", next)
 			next++
 			log = append(log, []any{"eval", i, args, id})
